@@ -18,6 +18,9 @@
 //!      `ZCurve { part_count, order }.partition`; per-point region codes and the reordered
 //!      permutation from the hooks.      out: `ok | <codes along the permutation> | <sorted code:id pairs>`
 //!      (both observables are invariant under the unstable sort's order of equal codes).
+//! `wqs <pool> <parts> <n> <scale> <idx…> <w…>`, `hils <dim> <pool> <order> <parts> <n> <scale> <coords…> <w…>`
+//!      `wq` / `hil` with every weight multiplied by `<scale>` (f64 bits); for a power of two the harness also
+//!      runs the unscaled weights and requires identical positions and ids (scale invariance).
 //! `hilg <dim> <pool> <order> <parts> <n> <family> <layout> <wmode> <seed> <reuse> [=> <idx…> <w…> <m> <pos…>]`
 //! `zcg  <dim> <pool> <order> <parts> <n> <family> <layout> <seed> <reuse> [=> <code…>]`
 //!      the same two algorithms on points (and integer weights) GENERATED from the descriptor (see
@@ -70,6 +73,13 @@ fn exact_weights(ws: &[f64]) -> bool {
 fn own_refinement(exact: bool, _n: usize, _parts: usize) -> bool {
     // measured: the compiled model refines 70 001 points into 70 001 parts in 0.3 s, so no size gate
     exact
+}
+
+/// `2^e` with `|e| <= 200`: scaling integer weights by it is exact and keeps every sum exact
+/// (same rule in the Lean driver: `pow2Scale`).
+fn pow2_scale(scale: f64) -> bool {
+    let b = scale.to_bits();
+    b & ((1u64 << 52) - 1) == 0 && (823..=1223).contains(&(b >> 52))
 }
 
 struct Toks<'a>(std::str::SplitWhitespace<'a>);
@@ -184,26 +194,34 @@ fn hil_nontrivial(idx: &[u64], parts: usize) -> bool {
     parts >= 2 && d.len() >= 2
 }
 
-fn run_wq(ctx: &mut Ctx, t: &mut Toks) -> Option<()> {
+fn run_wq(ctx: &mut Ctx, t: &mut Toks, scaled: bool) -> Option<()> {
     let pool = t.usize()?;
     let parts = t.usize()?;
     let n = t.usize()?;
+    let scale = if scaled { Some(t.f64()?) } else { None };
     let idx = t.many(n, |t| t.u64())?;
-    let ws = t.many(n, |t| t.f64())?;
+    let ws_base = t.many(n, |t| t.f64())?;
     if !t.at_end() || pool == 0 || pool > 64 {
         return None;
     }
     let base = format!(
-        "wq {} {} {} {} {}",
+        "{} {} {} {} {} {} {}",
+        if scaled { "wqs" } else { "wq" },
         pool,
         parts,
         n,
+        scale.map(hex).unwrap_or_default(),
         join(&idx),
-        join(&ws.iter().map(|w| hex(*w)).collect::<Vec<_>>())
+        join(&ws_base.iter().map(|w| hex(*w)).collect::<Vec<_>>())
     )
     .split_whitespace()
     .collect::<Vec<_>>()
     .join(" ");
+    // the weights the code sees: one multiplication each (exact for a power of two)
+    let ws: Vec<f64> = match scale {
+        Some(sc) => ws_base.iter().map(|w| w * sc).collect(),
+        None => ws_base.clone(),
+    };
     let (idx2, ws2) = (idx.clone(), ws.clone());
     let r = catch_timeout(WATCHDOG_S, move || {
         with_pool(pool, || coupe::verif::hilbert::weighted_quantiles(&idx2, &ws2, parts))
@@ -223,7 +241,8 @@ fn run_wq(ctx: &mut Ctx, t: &mut Toks) -> Option<()> {
             Ok(p) | Err(p) => p,
         })
         .collect();
-    let src = if own_refinement(exact_weights(&ws), n, parts) { "m" } else { "h" };
+    let exact = exact_weights(&ws_base) && scale.map(pow2_scale).unwrap_or(true);
+    let src = if own_refinement(exact, n, parts) { "m" } else { "h" };
     ctx.count(&format!("wq:src:{}", src));
     let mut v = hilbert_oracle(&idx, &ids, parts);
     if v.is_none() && !pos.windows(2).all(|w| w[0] <= w[1]) {
@@ -231,6 +250,26 @@ fn run_wq(ctx: &mut Ctx, t: &mut Toks) -> Option<()> {
     }
     if v.is_none() && pos.len() + 1 != parts {
         v = Some(("quantiles-count".into(), format!("{} positions for {} parts", pos.len(), parts)));
+    }
+    // scale invariance: multiplying every weight by a power of two changes no rounding, so the
+    // split positions must be IDENTICAL to those of the unscaled weights
+    if let Some(sc) = scale {
+        if v.is_none() && pow2_scale(sc) && ws_base.iter().all(|w| w.is_finite()) {
+            ctx.count("scale:invariance-checked");
+            let (idx2, wb) = (idx.clone(), ws_base.clone());
+            match catch_timeout(WATCHDOG_S, move || with_pool(pool, || coupe::verif::hilbert::weighted_quantiles(&idx2, &wb, parts))) {
+                Caught::Ok(pos0) => {
+                    if pos0 != pos {
+                        v = Some((
+                            "hilbert-scale-variance".into(),
+                            format!("scale {:e}: positions {:?} but {:?} unscaled", sc, &pos[..pos.len().min(8)], &pos0[..pos0.len().min(8)]),
+                        ));
+                    }
+                }
+                Caught::Panic(m) => v = Some(("panic".into(), format!("unscaled run: {} [{}]", m, panic_sig(&m)))),
+                Caught::Hang => v = Some(("hang".into(), "unscaled run: no answer".into())),
+            }
+        }
     }
     let out = format!("ok {} | {} | {}", src, list(&pos), list(&ids));
     let op = format!("{} => {} {}", base, pos.len(), join(&pos)).trim_end().to_string();
@@ -243,6 +282,8 @@ struct HilRan {
     ids: Vec<usize>,
     idx: Vec<u64>,
     pos: Vec<u64>,
+    /// ids and positions of the same call with the UNSCALED weights (scale-invariance check)
+    unscaled: Option<(Vec<usize>, Vec<u64>)>,
 }
 
 /// How the call under test is preceded (object / buffer reuse): 0 = fresh algorithm value and
@@ -258,7 +299,7 @@ fn reuse_name(reuse: usize) -> &'static str {
     }
 }
 
-fn run_hil(ctx: &mut Ctx, t: &mut Toks) -> Option<()> {
+fn run_hil(ctx: &mut Ctx, t: &mut Toks, scaled: bool) -> Option<()> {
     let dim = t.usize()?;
     let pool = t.usize()?;
     let order = t.u64()?;
@@ -267,25 +308,28 @@ fn run_hil(ctx: &mut Ctx, t: &mut Toks) -> Option<()> {
     if !(dim == 2 || dim == 3) || pool == 0 || pool > 64 || order > u32::MAX as u64 {
         return None;
     }
+    let scale = if scaled { Some(t.f64()?) } else { None };
     let coords = t.many(n * dim, |t| t.f64())?;
     let ws = t.many(n, |t| t.f64())?;
     if !t.at_end() {
         return None;
     }
     let base = format!(
-        "hil {} {} {} {} {} {} {}",
+        "{} {} {} {} {} {} {} {} {}",
+        if scaled { "hils" } else { "hil" },
         dim,
         pool,
         order,
         parts,
         n,
+        scale.map(hex).unwrap_or_default(),
         join(&coords.iter().map(|w| hex(*w)).collect::<Vec<_>>()),
         join(&ws.iter().map(|w| hex(*w)).collect::<Vec<_>>())
     )
     .split_whitespace()
     .collect::<Vec<_>>()
     .join(" ");
-    hil_exec(ctx, base, dim, pool, order, parts, n, coords, ws, 0, false);
+    hil_exec(ctx, base, dim, pool, order, parts, n, coords, ws, scale, 0, false);
     Some(())
 }
 
@@ -299,11 +343,19 @@ fn hil_exec(
     parts: usize,
     n: usize,
     coords: Vec<f64>,
-    ws: Vec<f64>,
+    ws_base: Vec<f64>,
+    scale: Option<f64>,
     reuse: usize,
     generated: bool,
 ) {
     let max_order = if dim == 2 { 32 } else { 21 };
+    // the weights the code sees: one multiplication each (exact for a power of two)
+    let ws: Vec<f64> = match scale {
+        Some(sc) => ws_base.iter().map(|w| w * sc).collect(),
+        None => ws_base.clone(),
+    };
+    let check_inv = scale.map(pow2_scale).unwrap_or(false) && ws_base.iter().all(|w| w.is_finite());
+    let wb = ws_base.clone();
     let (coords2, ws2) = (coords.clone(), ws.clone());
     let r = catch_timeout(WATCHDOG_S, move || {
         with_pool(pool, || {
@@ -341,7 +393,19 @@ fn hil_exec(
             } else {
                 vec![]
             };
-            HilRan { res, ids, idx, pos }
+            let unscaled = if check_inv && res.is_ok() && n > 0 {
+                let mut ids0 = vec![UNWRITTEN; n];
+                let mut alg0 = coupe::HilbertCurve { part_count: parts, order: order as u32 };
+                if dim == 2 {
+                    let _ = alg0.partition(&mut ids0, (&pts2(&coords2)[..], wb.clone()));
+                } else {
+                    let _ = alg0.partition(&mut ids0, (&pts3(&coords2)[..], wb.clone()));
+                }
+                Some((ids0, coupe::verif::hilbert::weighted_quantiles(&idx, &wb, parts)))
+            } else {
+                None
+            };
+            HilRan { res, ids, idx, pos, unscaled }
         })
     });
     if let Some((out, v)) = caught_out(&r) {
@@ -374,13 +438,29 @@ fn hil_exec(
             if v.is_none() {
                 v = hilbert_oracle(&ran.idx, &ran.ids, parts);
             }
-            let src = if own_refinement(exact_weights(&ws), n, parts) { "m" } else { "h" };
+            if let (true, Some((ids0, pos0))) = (v.is_none(), &ran.unscaled) {
+                ctx.count("scale:invariance-checked");
+                if *pos0 != ran.pos || *ids0 != ran.ids {
+                    v = Some((
+                        "hilbert-scale-variance".to_string(),
+                        format!(
+                            "scale {:e}: positions {:?}… but {:?}… unscaled; {} ids differ",
+                            scale.unwrap_or(1.0),
+                            &ran.pos[..ran.pos.len().min(6)],
+                            &pos0[..pos0.len().min(6)],
+                            ids0.iter().zip(&ran.ids).filter(|(a, b)| a != b).count()
+                        ),
+                    ));
+                }
+            }
+            let exact = exact_weights(&ws_base) && scale.map(pow2_scale).unwrap_or(true);
+            let src = if own_refinement(exact, n, parts) { "m" } else { "h" };
             ctx.count(&format!("hil:src:{}", src));
             ctx.count(&format!("hil:dim{}:pool{}", dim, pool));
             let out = format!("ok {} | {} | {}", src, list(&ran.pos), list(&ran.ids));
             let op = if generated {
                 // generated weights are integers: written in decimal for the model
-                let wi: Vec<u64> = ws.iter().map(|w| *w as u64).collect();
+                let wi: Vec<u64> = ws_base.iter().map(|w| *w as u64).collect();
                 format!("{} => {} {} {} {}", base, join(&ran.idx), join(&wi), ran.pos.len(), join(&ran.pos))
             } else {
                 format!("{} => {} {} {}", base, join(&ran.idx), ran.pos.len(), join(&ran.pos))
@@ -719,7 +799,7 @@ fn run_hilg(ctx: &mut Ctx, t: &mut Toks) -> Option<()> {
         ctx.count(&format!("reuse:hil:{}", reuse_name(reuse)));
     }
     ctx.count(&format!("gen:hil:family{}:layout{}", family, layout));
-    hil_exec(ctx, base, dim, pool, order, parts, n, coords, ws, reuse, true);
+    hil_exec(ctx, base, dim, pool, order, parts, n, coords, ws, None, reuse, true);
     Some(())
 }
 
@@ -769,8 +849,10 @@ pub fn run_op(ctx: &mut Ctx, op: &str) {
     let mut t = Toks(op.split_whitespace());
     let r = match t.0.next() {
         Some("bs") => run_bs(ctx, op, &mut t),
-        Some("wq") => run_wq(ctx, &mut t),
-        Some("hil") => run_hil(ctx, &mut t),
+        Some("wq") => run_wq(ctx, &mut t, false),
+        Some("wqs") => run_wq(ctx, &mut t, true),
+        Some("hil") => run_hil(ctx, &mut t, false),
+        Some("hils") => run_hil(ctx, &mut t, true),
         Some("zc") => run_zc(ctx, &mut t),
         Some("hilg") => run_hilg(ctx, &mut t),
         Some("zcg") => run_zcg(ctx, &mut t),
@@ -1144,7 +1226,9 @@ pub fn generate(ctx: &mut Ctx) {
     // (5) CORNER stream: part counts around 64/128/256, thousands of parts, 2 and 3 points,
     // chunk-size corners, weights near 2^53
     corner_stream(ctx);
-    // (6) malformed stream
+    // (6) WEIGHT-SCALE stream (defect N6): the same inputs with every weight multiplied by a scale
+    scale_stream(ctx);
+    // (7) malformed stream
     for _ in 0..ctx.budget(20, 200) {
         let n = 1 + ctx.rng.usize(5);
         let (c, _) = gen_points(ctx, n, 2, true);
@@ -1353,4 +1437,65 @@ fn corner_stream(ctx: &mut Ctx) {
             run_op(ctx, &format!("hilg 2 {} 16 {} {} {} {} 4 {} {}", pool, parts, n, family, layout, seed, reuse));
         }
     }
+}
+
+const DEC_SCALES: [f64; 7] = [1e-30, 1e-20, 1e-18, 1e-15, 1e-10, 1e10, 1e30];
+/// 2^-60, 2^-30, 2^30: exact scalings – split positions and ids must be identical to the unscaled run
+const POW2_SCALES: [f64; 3] = [
+    1.0 / (1u64 << 60) as f64,
+    1.0 / (1u64 << 30) as f64,
+    (1u64 << 30) as f64,
+];
+
+/// Each base input (a `hil` or a `wq` case of modest size) is run with its weights multiplied by
+/// the seven decimal scales (1-thread pool: the scaled weights are no longer exact, so only there
+/// are the hook's positions those of the call) and by the three powers of two (any pool when the
+/// base weights are integers and the points an exact-sum family). Oracle on all of them, watchdog
+/// on the refinement loop; for the powers of two the harness also runs the unscaled weights and
+/// requires identical positions and ids, and the model re-runs the refinement on the scaled weights.
+fn scale_stream(ctx: &mut Ctx) {
+    for _ in 0..ctx.budget(100, 1500) {
+        let multi = ctx.rng.chance(1, 2);
+        let n = gen_n(ctx).min(300);
+        let parts = gen_parts(ctx, n).max(1);
+        let wexact = multi || ctx.rng.chance(1, 2);
+        let (w, wname) = gen_weights(ctx, n, wexact);
+        ctx.count(&format!("scale:weights:{}", wname));
+        let big_pool = if multi { [4usize, 16][ctx.rng.usize(2)] } else { 1 };
+        let head_tail: (String, String) = if ctx.rng.chance(1, 2) {
+            let dim = if ctx.rng.chance(3, 5) { 2 } else { 3 };
+            let max_order = if dim == 2 { 32 } else { 21 };
+            let order = 1 + ctx.rng.usize(max_order);
+            let pexact = multi || ctx.rng.chance(1, 4);
+            let (c, _) = gen_points(ctx, n, dim, pexact);
+            ctx.count("scale:base:hil");
+            (format!("hils {} POOL {} {} {}", dim, order, parts, n), format!("{} {}", fmt_f(&c), fmt_f(&w)))
+        } else {
+            let shape = ctx.rng.usize(3);
+            let idx: Vec<u64> = (0..n)
+                .map(|_| match shape {
+                    0 => ctx.rng.below(64),
+                    1 => ctx.rng.below(1 << 24),
+                    _ => ctx.rng.next(),
+                })
+                .collect();
+            ctx.count("scale:base:wq");
+            (format!("wqs POOL {} {}", parts, n), format!("{} {}", join(&idx), fmt_f(&w)))
+        };
+        for sc in DEC_SCALES {
+            ctx.count(&format!("scale:{:e}", sc));
+            run_op(ctx, &format!("{} {} {}", head_tail.0.replace("POOL", "1"), hex(sc), head_tail.1));
+        }
+        for (sc, name) in POW2_SCALES.iter().zip(["2^-60", "2^-30", "2^30"]) {
+            ctx.count(&format!("scale:{}", name));
+            ctx.count(&format!("scale:pow2:pool{}", big_pool));
+            run_op(ctx, &format!("{} {} {}", head_tail.0.replace("POOL", &big_pool.to_string()), hex(*sc), head_tail.1));
+        }
+    }
+    ctx.notes.push(
+        "weight-scale stream: every base input (hil / wq, n <= 300) is repeated with its f64 weights multiplied by 1e-30, 1e-20, \
+         1e-18, 1e-15, 1e-10, 1e10, 1e30 (oracle, watchdog, ids vs the hook's positions) and by 2^-60, 2^-30, 2^30 (additionally: \
+         positions and ids identical to the unscaled run, and exact comparison with the model's own refinement)"
+            .to_string(),
+    );
 }
